@@ -184,6 +184,26 @@ def desugar(loc, relfile, fn_paths, rules, _pass=0, optional=()):
                     records.append({"fn": fp, "rule": "D30 for p in E { B }  =>  let s = E; let mut n = 0; while n < s.len() { let p = s[n]; n += 1; B }   (E is evaluated once to an indexable sequence of copyable items; Verus `for` has no `continue`)",
                                     "original": src[v["call"][0]:v["call"][1]], "rewritten": new})
                     continue
+                if v["rule"] == "D49":
+                    recv = src[v["recv"][0]:v["recv"][1]]
+                    pat = src[v["pat"][0]:v["pat"][1]]
+                    body = src[v["body"][0]:v["body"][1]]
+                    new = (f"{{ let mut pv_any = false; let mut pv_a: usize = 0; while pv_a < {recv}.len() {{ let {pat} = &{recv}[pv_a]; pv_a += 1; "
+                           f"let pv_t = {body}; pv_any = pv_any || pv_t; }} pv_any }}")
+                    rewrites.append((v["call"][0], v["call"][1], new))
+                    records.append({"fn": fp, "rule": "D49 X.iter().any(|p| C)  =>  { let mut any = false; index loop { let t = C; any = any || t; } any }   (C is evaluated for every element: it only reads)",
+                                    "original": src[v["call"][0]:v["call"][1]], "rewritten": new})
+                    continue
+                if v["rule"] == "D50":
+                    recv = src[v["recv"][0]:v["recv"][1]]
+                    pat = src[v["pat"][0]:v["pat"][1]]
+                    body = src[v["body"][0]:v["body"][1]]
+                    new = (f"{{ let mut pv_c = Vec::new(); let pv_src = {recv}; let mut pv_k: usize = 0; while pv_k < pv_src.len() {{ let {pat} = pv_src[pv_k]; pv_k += 1; "
+                           f"let pv_e = {body}; pv_c.push(pv_e); }} pv_c }}")
+                    rewrites.append((v["call"][0], v["call"][1], new))
+                    records.append({"fn": fp, "rule": "D50 X.into_iter().map(|p| E) (an `impl IntoIterator` argument)  =>  the vector of the mapped items, built by an index loop (X a vector of copyable items)",
+                                    "original": src[v["call"][0]:v["call"][1]], "rewritten": new})
+                    continue
                 if v["rule"] == "D48":
                     lhs = src[v["lhs"][0]:v["lhs"][1]]
                     rhs = src[v["rhs"][0]:v["rhs"][1]]
